@@ -312,11 +312,11 @@ pub fn error_exit_rules() -> Vec<Value> {
     let wrap = |k: &str, depth: usize, leaf: Value| -> Value {
         let mut v = leaf;
         for _ in 0..depth {
+            // the bracket-less spelling costs one JSON level per operator, so that 120 levels stay within what
+            // the text interfaces (and the replay files) can carry
             v = match k {
-                "if" => json!({"if": [true, v, 0]}),
-                "and" => json!({"and": [1, v]}),
                 "map" => json!({"reduce": [{"map": [[1], v]}, {"var": "current"}, 0]}),
-                _ => json!({k: [v]}),
+                _ => json!({ k: v }),
             };
         }
         v
@@ -456,12 +456,19 @@ fn run_alphabet(ctx: &mut Ctx, tag: &str, rules: Vec<Value>, datas: Vec<Value>, 
     if shared.fork_failures.load(Ordering::Relaxed) > 0 {
         ctx.fail("history:machinery", json!({"fork_failures": shared.fork_failures.load(Ordering::Relaxed)}), "every snapshot child exits normally".into(), "PANIC-like: a snapshot child died or fork failed".into(), None);
     }
+    let mut reported = 0u64;
     if let Ok(txt) = std::fs::read_to_string(&vio_path) {
         for line in txt.lines() {
-            if let Ok(v) = serde_json::from_str::<Value>(line) {
-                ctx.fail("history", v["case"].clone(), v["expected"].as_str().unwrap_or("").into(), v["actual"].as_str().unwrap_or("").into(), None);
+            match serde_json::from_str::<Value>(line) {
+                Ok(v) => ctx.fail("history", v["case"].clone(), v["expected"].as_str().unwrap_or("").into(), v["actual"].as_str().unwrap_or("").into(), None),
+                // a record that cannot be read back (a rule nested deeper than the parser accepts) is still a violation
+                Err(_) => ctx.fail("history", json!({"history_text": line.chars().take(4000).collect::<String>()}), "last call as in isolation".into(), "differs (record too deeply nested to re-read)".into(), None),
             }
+            reported += 1;
         }
+    }
+    if reported != shared.violations.load(Ordering::Relaxed) {
+        ctx.fail("history:machinery", json!({"violations_counted": shared.violations.load(Ordering::Relaxed), "violations_recorded": reported}), "every counted violation is recorded".into(), "PANIC-like: violation records were lost".into(), None);
     }
     let _ = std::fs::remove_file(&vio_path);
     // every history is a distinct non-trivial case: count them by position hash
